@@ -31,6 +31,7 @@ import (
 
 var out = bufio.NewWriter(os.Stdout)
 var netErr = errors.New("connection dropped")
+var seenBody = map[string]bool{}
 
 func msgsStr(ms []kafka.Message) string {
 	if len(ms) == 0 {
@@ -92,6 +93,22 @@ func fCases(rng *rand.Rand, n int) {
 			res = fmt.Sprintf("assignments:%v", as)
 		}
 		fmt.Fprintf(out, "assignerr %d\t%s\n", code, strings.ReplaceAll(res, " ", "_"))
+	}
+	// what the library's Conn concludes from per-partition error codes on the wire: the first non-zero one
+	pool := []int16{3, 5, 6, 7, 14, 15, 16, 22, 25, 26, 27, 29, 30}
+	for i := 0; i < n/5; i++ {
+		parts := 1 + rng.Intn(5)
+		codes := make([]int16, parts)
+		var cs []string
+		for j := range codes {
+			if rng.Intn(3) == 0 {
+				codes[j] = pool[rng.Intn(len(pool))]
+			}
+			cs = append(cs, fmt.Sprint(codes[j]))
+		}
+		for _, m := range []string{"offsetCommit", "offsetFetch"} {
+			fmt.Fprintf(out, "conncodes %s %s\t%s\n", m, strings.Join(cs, ","), kafka.VerifGroupWireConclusion(m, parts, codes))
+		}
 	}
 	for i := 0; i < n; i++ {
 		topics := [][]string{{"t"}, {"t", "u"}, {"u", "t", "w"}}[rng.Intn(3)]
@@ -170,6 +187,7 @@ type scen struct {
 	closeCh  chan struct{}
 	closed   bool
 	commitEr int
+	wire     bool
 	mu       sync.Mutex
 }
 
@@ -180,6 +198,8 @@ func newScen(rng *rand.Rand, topics []string, syncMode bool, errRate int) *scen 
 	kafka.VerifGroupResetConnIDs()
 	kafka.VerifStart()
 	kafka.VerifSetSink(s.log.Sink)
+	s.wire = rng.Intn(2) == 0
+	kafka.VerifSetGroupWire(s.wire)
 	kafka.VerifSetGroupHandler(s.mock.Handle)
 	cfg := kafka.ReaderConfig{
 		Brokers: []string{"b:9092"}, GroupID: "grp",
@@ -424,6 +444,8 @@ func (s *scen) emit() {
 	var toks []string
 	add := func(t string) { toks = append(toks, t) }
 	lastAssign, lastCommitted, lastFetchTopics := "-", "-", ""
+	pendAtt := map[string][2]string{}
+	genIDs := map[string]string{} // generation pointer id -> "<generation id>:<member id>"
 	for _, e := range evs {
 		a := e.Args
 		switch e.Kind {
@@ -432,7 +454,7 @@ func (s *scen) emit() {
 		case "H.CommitRet":
 			add("ret:" + a[0] + ":" + a[1])
 		case "CL.Begin":
-			add("begin:" + b01(a[2]))
+			add("begin:" + b01(a[2]) + ":" + genIDs[a[1]])
 		case "CL.Deq":
 			add("deq:" + a[2] + ":" + b01(strconv.FormatBool(a[3] == "drain")))
 		case "M.Call":
@@ -443,7 +465,13 @@ func (s *scen) emit() {
 			switch a[1] {
 			case "offsetCommit":
 				// the request's offsets were journalled with the call; find them again (same conn, latest call)
-				add("att:" + s.lastCommitOffsets(evs, e.Seq) + ":" + b01(strconv.FormatBool(a[2] == "-")))
+				offs, ack := s.lastCommitOffsets(evs, e.Seq), b01(strconv.FormatBool(a[2] == "-"))
+				ids := a[4] + ":" + a[3] // generation id and member id of the request
+				if s.wire { // the library's own conclusion follows as M.Wire
+					pendAtt[a[0]] = [2]string{offs, ack + ":" + ids}
+				} else {
+					add("att:" + offs + ":" + ack + ":" + ack + ":" + ids)
+				}
 			case "syncGroup":
 				if a[2] == "-" {
 					lastAssign = a[10]
@@ -452,6 +480,14 @@ func (s *scen) emit() {
 				add("fetch:" + b01(strconv.FormatBool(a[2] == "-")))
 				if a[2] == "-" {
 					lastCommitted = a[11]
+				}
+			}
+		case "M.Wire":
+			if a[1] == "offsetCommit" {
+				if pa, ok := pendAtt[a[0]]; ok {
+					delete(pendAtt, a[0])
+					// att:<offsets>:<what the library concluded>:<what the coordinator decided>
+					add("att:" + pa[0] + ":" + b01(strconv.FormatBool(a[2] == "-")) + ":" + pa[1])
 				}
 			}
 		case "CL.RetryAbort":
@@ -469,6 +505,7 @@ func (s *scen) emit() {
 		case "CL.End":
 			add("endLoop")
 		case "G.New":
+			genIDs[a[1]] = a[2] + ":" + gm.Mem(a[3])
 			add("gnew:" + a[4])
 			// in-situ case for the assignment model
 			fmt.Fprintf(out, "assign %d %s %s %s\t%s\n", s.r.Config().StartOffset, lastFetchTopics, assignToSubs(lastAssign), lastCommitted, assignmentsToRes(a[4], strings.Split(lastFetchTopics, ",")))
@@ -488,6 +525,12 @@ func (s *scen) emit() {
 		mode = "sync"
 	}
 	fmt.Fprintf(out, "ctrace %s %s\t%s\n", mode, strings.Join(toks, ";"), st)
+	for _, l := range s.mock.TakeBodies() {
+		if !seenBody[l] {
+			seenBody[l] = true
+			fmt.Fprintln(out, l)
+		}
+	}
 }
 
 // lastCommitOffsets finds the offsets of the OffsetCommit call that the M.Ret at seq answers.
@@ -546,17 +589,35 @@ func main() {
 	if gen.Thorough() {
 		nF, nT = 3000, 400
 	}
+	if len(os.Args) > 1 && os.Args[1] == "d30" {
+		scenarioD30()
+		return
+	}
+	if len(os.Args) > 1 && os.Args[1] == "dataplane" {
+		for i := 0; i < 6; i++ {
+			dataPlaneScenario(rng, 2+rng.Intn(3))
+		}
+		return
+	}
 	if len(os.Args) > 1 && os.Args[1] == "d8reader" {
 		scenarioD8Reader()
 		return
 	}
 	fCases(rng, nF)
 	scenarioD8Reader()
+	scenarioD30()
 	for i := 0; i < nT; i++ {
 		topics := [][]string{{"t"}, {"t", "u"}, {"a", "b", "c"}}[rng.Intn(3)]
 		s := newScen(rng, topics, rng.Intn(2) == 0, []int{0, 10, 20}[rng.Intn(3)])
 		s.run(40 + rng.Intn(80))
 		s.emit()
+	}
+	nD := 6
+	if gen.Thorough() {
+		nD = 40
+	}
+	for i := 0; i < nD; i++ {
+		dataPlaneScenario(rng, 2+rng.Intn(3))
 	}
 	nM := 12
 	if gen.Thorough() {
